@@ -18,7 +18,8 @@ func parseCacheControl(ccHeader string) (cacheControl, error) {
 	// Parse the Cache-Control header for max-age directive
 	for directive := range strings.SplitSeq(ccHeader, ",") {
 		directive = strings.TrimSpace(directive)
-		if directive == "no-cache" || directive == "no-store" {
+		if directive == "no-cache" || directive == "no-store" || directive == "private" {
+			// reservoir is a shared cache: "private" responses must not be stored either
 			cc.noCache = true
 		} else if after, ok := strings.CutPrefix(directive, "max-age="); ok {
 			// max-age directive specifies the maximum amount of time a response is considered fresh in seconds.
